@@ -223,6 +223,11 @@ pub fn run(ctx: &Ctx) -> i32 {
     });
     stats.merge(s4);
     viol.extend(v4);
+    crate::fuzzrun::golden("idl_parse", &mut stats, &mut viol);
+    if ctx.tier == vcommon::ev::Tier::Thorough {
+        let seeds: Vec<Vec<u8>> = texts.iter().take(200).map(|t| t.as_bytes().to_vec()).collect();
+        crate::fuzzrun::campaign(ctx, "idl_parse", crate::fuzzrun::fuzz_secs(300), &seeds, &mut stats, &mut viol);
+    }
     Report::new(RULE)
         .assume("the independent recogniser encodes the Varlink grammar as read by the harness author (interface name, upper-case member names, field names, types, one optional level, own-line comments in the listed positions, members on separate lines); texts only its lenient reading accepts are not judged")
         .assume("termination: a parser that loops would hang the check, which is reported by the caller's time limit as inconclusive")
@@ -231,6 +236,9 @@ pub fn run(ctx: &Ctx) -> i32 {
 }
 
 pub fn replay(lane: &str, case: serde_json::Value) -> CaseResult {
+    if lane == "fuzz" {
+        return crate::fuzzrun::replay(&case);
+    }
     let mut stats = Stats::default();
     let bad = |e: serde_json::Error| Fail::new("bad-replay", e.to_string());
     let (text, tree): (String, Option<Iface>) = match lane {
